@@ -35,6 +35,7 @@ type World struct {
 	Snap     bool     `json:"snap,omitempty"`     // isolation snapshot after every setup/tail op
 	RealFD   bool     `json:"realfd,omitempty"`   // fd 1/2 are captured by the parent
 	Race     bool     `json:"race,omitempty"`     // run in the race-transparent world
+	Fine     bool     `json:"fine,omitempty"`     // run in the world built with rule R4 (a yield point at every function entry of package slog)
 	Isolated bool     `json:"isolated,omitempty"` // one process for this episode
 	FileDir  string   `json:"filedir,omitempty"`  // directory for fd-backed destinations
 	RawPaths bool     `json:"rawpaths,omitempty"` // Home and Cwd are literal paths (cwd must exist), not mapped into the scratch file system
@@ -54,7 +55,8 @@ type Clock struct {
 type SchedCfg struct {
 	StayPermille int  `json:"stay,omitempty"`   // probability (‰) to keep running the current task at a yield
 	YieldMask    int  `json:"ymask,omitempty"`  // which callback classes yield (bit set; 0 = all)
-	PCTDepth     int  `json:"pct,omitempty"`    // >0: PCT-like mode with d preemptions
+	PCTDepth     int  `json:"pct,omitempty"`    // >0: PCT-like mode: exactly d preemptions at tape-chosen yield counts below Horizon
+	Horizon      int  `json:"horizon,omitempty"`
 	MaxYields    int  `json:"max_yields,omitempty"`
 }
 
